@@ -18,6 +18,10 @@ Definition InvS (st : @cstate num A) : Prop :=
 
 Let body := chunk_tasks_body N is_nd xs ilen cs.
 
+(* the two arithmetic ingredients of the loop *)
+Definition chunk_take (cur : num) : Z := Z.max 1 (nceil N cur).
+Definition chunk_next (cur : num) : num := nsub N (nadd N cur cs) (nofZ N (nceil N cur)).
+
 Lemma limit_le : limit <= zlen xs.
 Proof. unfold limit. destruct ilen; lia. Qed.
 Lemma limit_some l : ilen = Some l -> limit = Z.min l (zlen xs).
@@ -31,10 +35,12 @@ Lemma body_step cur ret it :
   InvS (cur, ret, it) ->
   exists chunk, chunk = take (Z.max 1 (nceil N cur)) (drop ret xs) /\
   match body (cur, ret, it) with
-  | (outs, Stop) => concat outs = take (limit - ret) (drop ret xs) /\ Forall (fun c => c <> []) outs
+  | (outs, Stop) => concat outs = take (limit - ret) (drop ret xs) /\
+      ((outs = [] /\ ret = limit) \/
+       (exists c, outs = [c] /\ 0 < zlen c <= chunk_take cur /\ ret + zlen c = limit))
   | (outs, Continue st') =>
       outs = [chunk] /\ chunk <> [] /\ InvS st' /\
-      (let '(_, ret', _) := st' in ret' = ret + zlen chunk)
+      (let '(cur', ret', _) := st' in ret' = ret + zlen chunk /\ cur' = chunk_next cur)
   | (_, Fail _) => False
   end.
 Proof.
@@ -50,13 +56,15 @@ Proof.
   assert (Htail : forall it',
      (is_nd = false -> it' = drop (ret + zlen (take k R)) xs) ->
      match body_tail N ilen cs cur ret (take k R) it' with
-     | (outs, Stop) => concat outs = take (limit - ret) R /\ Forall (fun c => c <> []) outs
+     | (outs, Stop) => concat outs = take (limit - ret) R /\
+        ((outs = [] /\ ret = limit) \/
+         (exists c, outs = [c] /\ 0 < zlen c <= k /\ ret + zlen c = limit))
      | (outs, Continue st') => outs = [take k R] /\ take k R <> [] /\ InvS st' /\
-          (let '(_, ret', _) := st' in ret' = ret + zlen (take k R))
+          (let '(cur', ret', _) := st' in ret' = ret + zlen (take k R) /\ cur' = chunk_next cur)
      | (_, Fail _) => False end).
   { intros it' Hit'. unfold body_tail.
     destruct (zlen (take k R) =? 0) eqn:E0.
-    - apply Z.eqb_eq in E0. split; [|constructor]. simpl.
+    - apply Z.eqb_eq in E0. split; [|left; split; [reflexivity|lia]]. simpl.
       rewrite take_nonpos; [reflexivity|]. lia.
     - apply Z.eqb_neq in E0.
       assert (Hne : take k R <> []). { intros Hn. apply E0. rewrite Hn. reflexivity. }
@@ -68,10 +76,11 @@ Proof.
           replace (Z.min (l - ret) k) with (l - ret) by lia.
           replace (limit - ret) with (l - ret) by lia.
           destruct (0 <? zlen (take (l - ret) R)) eqn:Epos.
-          -- split; [simpl; apply app_nil_r|]. constructor; [|constructor].
-             intros Hn. rewrite Hn in Epos. discriminate.
-          -- split; [|constructor]. simpl. apply Z.ltb_ge in Epos.
-             pose proof (zlen_nonneg (take (l - ret) R)). symmetry. apply zlen_nil_iff. lia.
+          -- split; [simpl; apply app_nil_r|]. right. eexists; split; [reflexivity|].
+             apply Z.ltb_lt in Epos. rewrite zlen_take in *. lia.
+          -- apply Z.ltb_ge in Epos. pose proof (zlen_nonneg (take (l - ret) R)).
+             split; [simpl; symmetry; apply zlen_nil_iff; lia|]. left. split; [reflexivity|].
+             rewrite zlen_take in *. lia.
         * apply Z.ltb_ge in Ecut. repeat split; auto; lia.
       + pose proof (LN eq_refl) as Hlim. repeat split; auto; lia. }
   destruct is_nd eqn:End.
@@ -90,7 +99,7 @@ Proof.
   destruct (body_step cur ret it Hilen HI) as (chunk & Hck & Hb).
   cbn [chunk_loop]. destruct (body (cur, ret, it)) as [outs c].
   destruct c as [[[cur' ret'] it']| |e].
-  - destruct Hb as (Ho & Hne & HI' & Hr'). subst outs.
+  - destruct Hb as (Ho & Hne & HI' & Hr' & _). subst outs.
     assert (Hpos : 0 < zlen chunk).
     { pose proof (zlen_nonneg chunk). destruct (Z.eq_dec (zlen chunk) 0) as [E|E]; [|lia].
       apply zlen_nil_iff in E. contradiction. }
@@ -104,7 +113,65 @@ Proof.
       * rewrite Hck. symmetry. apply take_len_take.
       * rewrite drop_drop by lia. reflexivity.
     + constructor; assumption.
-  - destruct Hb as [Hcat Hfa]. eexists; split; [reflexivity|]. split; assumption.
+  - destruct Hb as [Hcat Hsh]. eexists; split; [reflexivity|]. split; [assumption|].
+    destruct Hsh as [[-> _]|(c & -> & Hc & _)]; [constructor|].
+    constructor; [|constructor]. intros ->. unfold zlen in Hc; simpl in Hc; lia.
+  - contradiction.
+Qed.
+
+(* ---- the loop as a recurrence: chunk j has exactly chunk_take cur_j elements (the last one may
+        be shorter), cur_{j+1} = chunk_next cur_j ---- *)
+Fixpoint trace_ok (cur : num) (ret : Z) (chunks : list (list A)) : Prop :=
+  match chunks with
+  | [] => ret = limit
+  | c :: rest =>
+      match rest with
+      | [] => 0 < zlen c <= chunk_take cur /\ ret + zlen c = limit
+      | _ :: _ => zlen c = chunk_take cur /\ trace_ok (chunk_next cur) (ret + zlen c) rest
+      end
+  end.
+
+Lemma trace_ok_sum : forall chunks cur ret,
+  trace_ok cur ret chunks -> Forall (fun c => c <> []) chunks -> ret + zlen (concat chunks) = limit.
+Proof.
+  induction chunks as [|c rest IH]; intros cur ret Ht Hf; simpl in *.
+  - unfold zlen; simpl; lia.
+  - inversion Hf as [|? ? Hc Hr]; subst. rewrite zlen_app. destruct rest as [|c2 rest'].
+    + simpl. unfold zlen at 2; simpl. lia.
+    + destruct Ht as [Hz Ht]. specialize (IH _ _ Ht Hr). lia.
+Qed.
+
+Lemma loop_trace : (forall l, ilen = Some l -> 0 <= l) -> forall fuel cur ret it chunks,
+  InvS (cur, ret, it) -> chunk_loop fuel body (cur, ret, it) = Ok chunks ->
+  trace_ok cur ret chunks /\ Forall (fun c => c <> []) chunks.
+Proof.
+  intros Hilen. induction fuel as [|fuel IH]; intros cur ret it chunks HI Hrun; [discriminate|].
+  destruct (body_step cur ret it Hilen HI) as (chunk & Hck & Hb).
+  cbn [chunk_loop] in Hrun. destruct (body (cur, ret, it)) as [outs c].
+  destruct c as [[[cur' ret'] it']| |e].
+  - destruct Hb as (Ho & Hne & HI' & Hr' & Hc'). subst outs cur'.
+    destruct (chunk_loop fuel body (chunk_next cur, ret', it')) as [more|] eqn:Hm; [|discriminate].
+    inversion Hrun; subst chunks; clear Hrun.
+    destruct (IH _ _ _ _ HI' Hm) as [Ht Hf]. split; [|constructor; assumption].
+    assert (Hpos : 0 < zlen chunk).
+    { pose proof (zlen_nonneg chunk). destruct (Z.eq_dec (zlen chunk) 0) as [E|E]; [|lia].
+      apply zlen_nil_iff in E. contradiction. }
+    assert (Hlen : zlen chunk = Z.min (chunk_take cur) (zlen xs - ret)).
+    { rewrite Hck. rewrite zlen_take, zlen_drop. destruct HI as [Hr _]. pose proof limit_le.
+      unfold chunk_take. lia. }
+    cbn [app trace_ok]. destruct more as [|c2 more'].
+    + simpl in Ht. split; [unfold chunk_take in *; lia | lia].
+    + pose proof (trace_ok_sum _ _ _ Ht Hf) as Hsum. inversion Hf as [|? ? Hc2 _]; subst.
+      assert (0 < zlen c2).
+      { pose proof (zlen_nonneg c2). destruct (Z.eq_dec (zlen c2) 0) as [E|E]; [|lia].
+        apply zlen_nil_iff in E. contradiction. }
+      cbn [concat] in Hsum. rewrite zlen_app in Hsum. pose proof (zlen_nonneg (concat more')).
+      pose proof limit_le. split; [lia|]. exact Ht.
+  - destruct Hb as [Hcat Hsh]. inversion Hrun; subst chunks; clear Hrun.
+    destruct Hsh as [[-> Hr]|(c & -> & Hc & Hs)].
+    + split; [exact Hr|constructor].
+    + split; [cbn [trace_ok]; split; assumption|].
+      constructor; [|constructor]. intros ->. unfold zlen in Hc; simpl in Hc; lia.
   - contradiction.
 Qed.
 
@@ -145,3 +212,36 @@ Proof.
 Qed.
 
 End Main.
+
+(* chunk_tasks exposes the recurrence: with the chunk size c it starts from *)
+Section MainTrace.
+Context {num : Type} (N : numops num) {A : Type}.
+
+Definition start_size (has_len : bool) (xs : list A) (ilen : option Z) (cs : option num) (ns : option Z)
+  : option num :=
+  match cs, ns with
+  | Some c, _ => Some c
+  | None, Some s => match ilen with
+                    | Some l => Some (ndivZ N l s)
+                    | None => if has_len then Some (ndivZ N (zlen xs) s) else None
+                    end
+  | None, None => None
+  end.
+
+Theorem chunk_tasks_trace is_nd has_len (xs : list A) ilen cs ns chunks :
+  (forall l, ilen = Some l -> 0 <= l) ->
+  chunk_tasks N is_nd has_len xs ilen cs ns = Ok chunks ->
+  exists c, start_size has_len xs ilen cs ns = Some c /\
+            trace_ok N xs ilen c c 0 chunks /\ Forall (fun ch => ch <> []) chunks.
+Proof.
+  intros Hl. unfold chunk_tasks, start_size. rewrite chunk_init_spec.
+  assert (Hgo : forall c, chunk_loop (S (length xs)) (chunk_tasks_body N is_nd xs ilen c) (c, 0, xs) = Ok chunks ->
+            trace_ok N xs ilen c c 0 chunks /\ Forall (fun ch => ch <> []) chunks).
+  { intros c Hrun. eapply loop_trace; eauto.
+    unfold InvS, limit. split; [|intros; reflexivity].
+    pose proof (zlen_nonneg xs). destruct ilen as [l|]; [specialize (Hl l eq_refl)|]; lia. }
+  destruct cs as [c|]; [|destruct ns as [s|]; [destruct ilen as [l|]; [|destruct has_len]|]];
+    cbv beta iota zeta; intros Hrun; try discriminate;
+    eexists; (split; [reflexivity|]); apply Hgo; exact Hrun.
+Qed.
+End MainTrace.
